@@ -24,14 +24,27 @@ def main():
     seed = os.path.abspath(sys.argv[1])
     meta = json.load(open(seed + '/meta.json'))
     prop = meta['property']
-    checks = sys.argv[2:] or [prop]
+    args = sys.argv[2:]
+    reuse = None
+    if '--wt' in args:
+        i = args.index('--wt')
+        reuse = args[i + 1]
+        args = args[:i] + args[i + 2:]
+    checks = args or [prop]
     name = '%s_%s' % (prop, os.path.basename(seed))
-    wt = '/tmp/seedcheck/' + name
-    os.makedirs('/tmp/seedcheck', exist_ok=True)
-    sh('git -C /repo worktree remove --force %s' % wt)
-    shutil.rmtree(wt, ignore_errors=True)
-    rc, out = sh('git -C /repo worktree add -q --detach %s HEAD' % wt)
     res = {'seed': seed, 'property': prop}
+    if reuse:
+        # an existing scratch worktree (warm build cache); it must be clean
+        wt = reuse
+        rc, out = sh('git status --porcelain --untracked-files=no', cwd=wt)
+        if out.strip():
+            sh('git checkout -- .', cwd=wt)
+    else:
+        wt = '/tmp/seedcheck/' + name
+        os.makedirs('/tmp/seedcheck', exist_ok=True)
+        sh('git -C /repo worktree remove --force %s' % wt)
+        shutil.rmtree(wt, ignore_errors=True)
+        rc, out = sh('git -C /repo worktree add -q --detach %s HEAD' % wt)
     env = dict(os.environ, CARGO_TARGET_DIR=wt + '/target', CARGO_NET_OFFLINE='true')
     try:
         demo = meta.get('demo_cmd_eval') or meta['demo_cmd']
@@ -70,8 +83,11 @@ def main():
                                 'tail': out.strip().splitlines()[-1][:200] if out.strip() else ''}
         return res
     finally:
-        sh('git -C /repo worktree remove --force %s' % wt)
-        shutil.rmtree(wt, ignore_errors=True)
+        if reuse:
+            sh('git checkout -- .', cwd=wt)
+        else:
+            sh('git -C /repo worktree remove --force %s' % wt)
+            shutil.rmtree(wt, ignore_errors=True)
         # build output of the alternative checkout
         import hashlib
         alt = '/alt_' + hashlib.md5(wt.encode()).hexdigest()[:10]
